@@ -479,11 +479,51 @@ func requestTaint(p *core.Prog, f *core.Func) map[types.Object]bool {
 			if pk == grpcPkg || pk == "slottools" {
 				return false // generated getters; pure slot/epoch arithmetic
 			}
+			if c08JSONPlumbing(fn) {
+				return false // decodes or projects untyped JSON: what it returns is still what the client sent
+			}
 			return true
 		}
 		return false
 	}
 	return taintFromPolicy(f, nil, cut, seeds...)
+}
+
+// c08JSONPlumbing: a repository function of package main that hands back untyped JSON (any, []any, map[string]any)
+// made from the raw params message or from the decoded positional array ([]any) it was given. Told by the signature, not by the name: a
+// request parser split into "decode the params array" / "options object at position i" helpers keeps its taint.
+func c08JSONPlumbing(fn *types.Func) bool {
+	sig, ok := fn.Type().(*types.Signature)
+	if !ok || core.ShortPkg(fn.Pkg().Path()) != "main" {
+		return false
+	}
+	untyped := func(t types.Type) bool {
+		switch u := t.(type) {
+		case *types.Slice:
+			t = u.Elem()
+		case *types.Map:
+			t = u.Elem()
+		}
+		it, isI := t.Underlying().(*types.Interface)
+		_, named := t.(*types.Named)
+		return isI && !named && it.NumMethods() == 0
+	}
+	in := false
+	for i := 0; i < sig.Params().Len(); i++ {
+		t := sig.Params().At(i).Type()
+		if _, isSl := t.(*types.Slice); isSl && untyped(t) || core.NamedTypeName(t) == "encoding/json.RawMessage" {
+			in = true // the raw params member or the decoded positional array
+		}
+	}
+	if !in {
+		return false
+	}
+	for i := 0; i < sig.Results().Len(); i++ {
+		if untyped(sig.Results().At(i).Type()) {
+			return true
+		}
+	}
+	return false
 }
 
 // ---- R2 ---------------------------------------------------------------------------------------
